@@ -1,4 +1,5 @@
 import Mdsort.Proofs.WorldStdinExecOne
+import Mdsort.Proofs.EvalPWorld
 
 /-! `message_parse` and the processing of the one spooled message in a stdin run. -/
 
@@ -168,8 +169,9 @@ def DoneV (S : Spool) (env : PEnv) (input : Bytes) (v : Verdict) (w' : World) : 
       (∀ m ∈ ml, moveTy m.ty → destPath m.path ≠ some S.sp) →
       ∃ p n fid, p ≠ S.sp ∧ GoodAt w' [input, (messageWrite m').1] p n fid
 
+/-- For a rule tree that asks the operating system nothing (`asksFree`: the verdict is then the pure `stdinVerdict`). -/
 def Done (S : Spool) (env : PEnv) (orc : EvalOracles) (expr : Expr) (input name0 : Bytes) (w' : World) : Prop :=
-  ∃ fl, flagsParse name0 = some fl ∧
+  asksFree expr = true → ∃ fl, flagsParse name0 = some fl ∧
     DoneV S env input (stdinVerdict env orc expr input (S.sp ++ [47] ++ name0) fl) w'
 
 /-- All-path facts about the spool after a part of the run that started in `w`. -/
